@@ -481,6 +481,9 @@ func ValidTopicName(mustUTF8 bool, p []byte) bool {
 		if mustUTF8 && ru == utf8.RuneError && size <= 1 {
 			return false
 		}
+		if ru == 0 { // the null character is not allowed [MQTT-4.7.3-2]
+			return false
+		}
 		if size == 1 {
 			//主题名不允许使用通配符
 			if p[0] == byte('+') || p[0] == byte('#') {
@@ -506,6 +509,9 @@ func ValidV5Topic(p []byte) bool {
 			for len(subp) > 0 {
 				ru, size := utf8.DecodeRune(subp)
 				if ru == utf8.RuneError && size <= 1 {
+					return false
+				}
+				if ru == 0 { // [MQTT-4.7.3-2]
 					return false
 				}
 				if size == 1 {
@@ -543,6 +549,9 @@ func ValidTopicFilter(mustUTF8 bool, p []byte) bool {
 		ru, size := utf8.DecodeRune(p)
 		// an invalid encoding decodes as RuneError with size 1; U+FFFD itself (size 3) is a legal character
 		if mustUTF8 && ru == utf8.RuneError && size <= 1 {
+			return false
+		}
+		if ru == 0 { // the null character is not allowed [MQTT-4.7.3-2]
 			return false
 		}
 		plen := len(p)
